@@ -183,25 +183,18 @@ __CPROVER_ensures(g_sx_live == __CPROVER_old(g_sx_live) + (__CPROVER_return_valu
 ;
 
 /* ---- integers -----------------------------------------------------------
- * parse_integer_ scans the digit run s[d0..e) (d0 = *i + offset, the prefix
- * "#x" has offset 2), demands a delimiter or the end of the input behind it,
- * and returns its POSITIONAL VALUE modulo 2^64 (the reader has no overflow
- * status: a literal of more than 64 bits wraps -- stated here, not judged).
- *
- * The positional value of a digit run is a fold; as for the checksums it is
- * pinned by ghost traces (arbitrary, never assigned by the code):
- *    g_sxP[k] = base^k,   g_sxV[k] = value of the LAST k digits of the run
- *    g_sxV[k+1] == g_sxV[k] + g_sxP[k] * digitvalue(s[e-1-k])     (mod 2^64)
- * SX_VTRACE_OK is that definition for a run ending at e (bounded quantifier
- * over the constant SX_DMAX: tier A-len in the number of digits; the loop
- * proofs are inductive).  The clause reads: for every pair of traces that
- * satisfies the definition for the run actually consumed, the node's value
- * is g_sxV[number of digits].  Lemma targets `value_is_horner_*` relate the
- * definition to the usual most-significant-first reading for both bases.
- */
-/* SX_DMAX, SX_ISBASEDIGIT, SX_VTRACE_MEM_OK, SX_VTRACE_OK: spec/sx.h (the loop
- * invariants inside the staged source use them too) */
-extern const uint64_t *g_sxV, *g_sxP;
+ * parse_integer_ scans the digit run s[d0..e) (d0 = *i + offset; the prefix
+ * "#x" has offset 2), demands a delimiter or the end of the input behind it
+ * and returns an integer node.  This contract (all input lengths, inductive
+ * loop invariants, `decreases`) covers reads, the position, the NULL/non-NULL
+ * relation and the ledger.  The VALUE of the node -- the positional value of
+ * the digit run, hex digits in either case, modulo 2^64 because the reader has
+ * no overflow status -- is a fold that a contract cannot state without a
+ * ghost trace; the trace formulation was measured (64-bit multiplier
+ * equivalences under symbolic indices: no answer in 5 min for 4 digits) and
+ * dropped.  The value is decided on the real function by the bounded targets
+ * `integer_value_dec` / `integer_value_hex` (tier B, up to SX_VDIGITS digits)
+ * against spec_sx_value(), the most-significant-digit-first reading. */
 #define SX_INT_REQUIRES(s, n, i, offset, base) \
   (__CPROVER_r_ok(s, n) && __CPROVER_rw_ok(i, sizeof(*(i))) && *(i) < (n) \
    && (((offset) == 0 && (base) == 10 && SPEC_SX_ISDIGIT((s)[*(i)])) \
@@ -214,7 +207,6 @@ static struct sx_node *parse_integer_(const char *s, const size_t n, size_t *i, 
 __CPROVER_requires(SX_INT_REQUIRES(s, n, i, offset, base))
 __CPROVER_requires(digitpredicate == ((base) == 10 ? isdigit : isxdigit))
 __CPROVER_requires(SX_STATIC_DIGITS_OK)
-__CPROVER_requires(SX_VTRACE_MEM_OK)
 __CPROVER_assigns(*i, g_sx_live)
 __CPROVER_ensures(__CPROVER_old(*i) + offset < *i && *i <= n)
 __CPROVER_ensures(IMPLIES(__CPROVER_old(*i) + offset <= g_k && g_k < *i, SX_ISBASEDIGIT(base, s[g_k])))
@@ -222,9 +214,6 @@ __CPROVER_ensures(IMPLIES(*i < n, !SX_ISBASEDIGIT(base, s[*i])))
 __CPROVER_ensures((__CPROVER_return_value == NULL) == (*i < n && !SPEC_SX_ISDELIM(s[*i])))
 __CPROVER_ensures(IMPLIES(__CPROVER_return_value != NULL,
     SX_NODE_FRESH(__CPROVER_return_value) && __CPROVER_return_value->type == SXT_INTEGER))
-__CPROVER_ensures(IMPLIES(__CPROVER_return_value != NULL
-    && SX_VTRACE_OK(g_sxV, g_sxP, s, __CPROVER_old(*i) + offset, *i, base),
-    __CPROVER_return_value->data.u64 == g_sxV[*i - (__CPROVER_old(*i) + offset)]))
 __CPROVER_ensures(g_sx_live == __CPROVER_old(g_sx_live) + (__CPROVER_return_value != NULL ? 1 : 0))
 ;
 
